@@ -1,12 +1,11 @@
 /-
   C07 — German account numbers are judged by the Bundesbank method of their bank.
 
-  * `SV.Props.C07Plain`, `SV.Props.C07Special`: for 37 of the 39 implemented methods, for ALL ten
+  * `SV.Props.C07Plain`, `SV.Props.C07Special`: for all 39 implemented methods, for ALL ten
     digits, the engine instantiated with the class parameters regenerated from the live tree returns
     a verdict and accepts exactly when the published rule (SV.Spec.Germany) does — whatever the
-    incoming scratch state.  Methods 24 and 68 are not proved in Lean (their rules branch on the
-    number of leading zeros in a way that needs a larger case analysis); they are covered by the
-    correspondence stream and by the independent reference `tools/natref.py`.
+    incoming scratch state.  (Methods 24 and 68 branch on the number of leading zeros; their proofs
+    are zero-prefix case trees, the text of 68 is written by tools/mk_de68.py.)
   * this file: the dispatch from bank code to method, acceptance for unlisted banks and for methods
     that are not implemented, and independence of anything but method and account number.
 -/
@@ -82,6 +81,65 @@ theorem live_de_methods :
       "17", "18", "19", "20", "21", "22", "23", "24", "25", "26", "28", "32", "33", "34", "38", "60",
       "61", "63", "68", "76", "88", "91", "99"].map (fun m => C06.bytes ("DE:" ++ m))) := by
   decide +kernel
+
+/-- The parameter records of the live German methods, in table order. -/
+def liveDEParams : List DEParams :=
+  Gen.algoTable.filterMap (fun a => match a.ref with | .de p => some p | _ => none)
+
+theorem live_de_params : liveDEParams = [Gen.de_DE_00, Gen.de_DE_01, Gen.de_DE_02, Gen.de_DE_03, Gen.de_DE_04, Gen.de_DE_05, Gen.de_DE_06, Gen.de_DE_07, Gen.de_DE_08, Gen.de_DE_09, Gen.de_DE_10, Gen.de_DE_11, Gen.de_DE_13, Gen.de_DE_14, Gen.de_DE_15, Gen.de_DE_16, Gen.de_DE_17, Gen.de_DE_18, Gen.de_DE_19, Gen.de_DE_20, Gen.de_DE_21, Gen.de_DE_22, Gen.de_DE_23, Gen.de_DE_24, Gen.de_DE_25, Gen.de_DE_26, Gen.de_DE_28, Gen.de_DE_32, Gen.de_DE_33, Gen.de_DE_34, Gen.de_DE_38, Gen.de_DE_60, Gen.de_DE_61, Gen.de_DE_63, Gen.de_DE_68, Gen.de_DE_76, Gen.de_DE_88, Gen.de_DE_91, Gen.de_DE_99] := by
+  rfl
+
+/-- Totality of the German national check: EVERY live method, on EVERY ten-digit account number,
+    from EVERY scratch state, returns a verdict or the library's own `InvalidBBANChecksum` — never
+    a foreign exception (`deVerdict` is false exactly on `crash`). -/
+theorem live_de_total (U : Unicode) (hU : U.WF) (d1 d2 d3 d4 d5 d6 d7 d8 d9 d10 : Nat)
+    (h1 : d1 < 10) (h2 : d2 < 10) (h3 : d3 < 10) (h4 : d4 < 10) (h5 : d5 < 10) (h6 : d6 < 10)
+    (h7 : d7 < 10) (h8 : d8 < 10) (h9 : d9 < 10) (h10 : d10 < 10) (sc : Scratch) :
+    ∀ p ∈ liveDEParams,
+      deVerdict (p.validateM U [acct d1 d2 d3 d4 d5 d6 d7 d8 d9 d10] sc).2 = true := by
+  intro p hp
+  rw [live_de_params] at hp
+  simp only [List.mem_cons, List.not_mem_nil, or_false] at hp
+  rcases hp with rfl | rfl | rfl | rfl | rfl | rfl | rfl | rfl | rfl | rfl | rfl | rfl | rfl | rfl | rfl | rfl | rfl | rfl | rfl | rfl | rfl | rfl | rfl | rfl | rfl | rfl | rfl | rfl | rfl | rfl | rfl | rfl | rfl | rfl | rfl | rfl | rfl | rfl | rfl
+  · exact (de00 U hU d1 d2 d3 d4 d5 d6 d7 d8 d9 d10 h1 h2 h3 h4 h5 h6 h7 h8 h9 h10 sc).1
+  · exact (de01 U hU d1 d2 d3 d4 d5 d6 d7 d8 d9 d10 h1 h2 h3 h4 h5 h6 h7 h8 h9 h10 sc).1
+  · exact (de02 U hU d1 d2 d3 d4 d5 d6 d7 d8 d9 d10 h1 h2 h3 h4 h5 h6 h7 h8 h9 h10 sc).1
+  · exact (de03 U hU d1 d2 d3 d4 d5 d6 d7 d8 d9 d10 h1 h2 h3 h4 h5 h6 h7 h8 h9 h10 sc).1
+  · exact (de04 U hU d1 d2 d3 d4 d5 d6 d7 d8 d9 d10 h1 h2 h3 h4 h5 h6 h7 h8 h9 h10 sc).1
+  · exact (de05 U hU d1 d2 d3 d4 d5 d6 d7 d8 d9 d10 h1 h2 h3 h4 h5 h6 h7 h8 h9 h10 sc).1
+  · exact (de06 U hU d1 d2 d3 d4 d5 d6 d7 d8 d9 d10 h1 h2 h3 h4 h5 h6 h7 h8 h9 h10 sc).1
+  · exact (de07 U hU d1 d2 d3 d4 d5 d6 d7 d8 d9 d10 h1 h2 h3 h4 h5 h6 h7 h8 h9 h10 sc).1
+  · exact (de08 U hU d1 d2 d3 d4 d5 d6 d7 d8 d9 d10 h1 h2 h3 h4 h5 h6 h7 h8 h9 h10 sc).1
+  · rw [de09 U _ sc]; rfl
+  · exact (de10 U hU d1 d2 d3 d4 d5 d6 d7 d8 d9 d10 h1 h2 h3 h4 h5 h6 h7 h8 h9 h10 sc).1
+  · exact (de11 U hU d1 d2 d3 d4 d5 d6 d7 d8 d9 d10 h1 h2 h3 h4 h5 h6 h7 h8 h9 h10 sc).1
+  · exact (de13 U hU d1 d2 d3 d4 d5 d6 d7 d8 d9 d10 h1 h2 h3 h4 h5 h6 h7 h8 h9 h10 sc).1
+  · exact (de14 U hU d1 d2 d3 d4 d5 d6 d7 d8 d9 d10 h1 h2 h3 h4 h5 h6 h7 h8 h9 h10 sc).1
+  · exact (de15 U hU d1 d2 d3 d4 d5 d6 d7 d8 d9 d10 h1 h2 h3 h4 h5 h6 h7 h8 h9 h10 sc).1
+  · exact (de16 U hU d1 d2 d3 d4 d5 d6 d7 d8 d9 d10 h1 h2 h3 h4 h5 h6 h7 h8 h9 h10 sc).1
+  · exact (de17 U hU d1 d2 d3 d4 d5 d6 d7 d8 d9 d10 h1 h2 h3 h4 h5 h6 h7 h8 h9 h10 sc).1
+  · exact (de18 U hU d1 d2 d3 d4 d5 d6 d7 d8 d9 d10 h1 h2 h3 h4 h5 h6 h7 h8 h9 h10 sc).1
+  · exact (de19 U hU d1 d2 d3 d4 d5 d6 d7 d8 d9 d10 h1 h2 h3 h4 h5 h6 h7 h8 h9 h10 sc).1
+  · exact (de20 U hU d1 d2 d3 d4 d5 d6 d7 d8 d9 d10 h1 h2 h3 h4 h5 h6 h7 h8 h9 h10 sc).1
+  · exact (de21 U hU d1 d2 d3 d4 d5 d6 d7 d8 d9 d10 h1 h2 h3 h4 h5 h6 h7 h8 h9 h10 sc).1
+  · exact (de22 U hU d1 d2 d3 d4 d5 d6 d7 d8 d9 d10 h1 h2 h3 h4 h5 h6 h7 h8 h9 h10 sc).1
+  · exact (de23 U hU d1 d2 d3 d4 d5 d6 d7 d8 d9 d10 h1 h2 h3 h4 h5 h6 h7 h8 h9 h10 sc).1
+  · exact (de24 U hU d1 d2 d3 d4 d5 d6 d7 d8 d9 d10 h1 h2 h3 h4 h5 h6 h7 h8 h9 h10 sc).1
+  · exact (de25 U hU d1 d2 d3 d4 d5 d6 d7 d8 d9 d10 h1 h2 h3 h4 h5 h6 h7 h8 h9 h10 sc).1
+  · exact (de26 U hU d1 d2 d3 d4 d5 d6 d7 d8 d9 d10 h1 h2 h3 h4 h5 h6 h7 h8 h9 h10 sc).1
+  · exact (de28 U hU d1 d2 d3 d4 d5 d6 d7 d8 d9 d10 h1 h2 h3 h4 h5 h6 h7 h8 h9 h10 sc).1
+  · exact (de32 U hU d1 d2 d3 d4 d5 d6 d7 d8 d9 d10 h1 h2 h3 h4 h5 h6 h7 h8 h9 h10 sc).1
+  · exact (de33 U hU d1 d2 d3 d4 d5 d6 d7 d8 d9 d10 h1 h2 h3 h4 h5 h6 h7 h8 h9 h10 sc).1
+  · exact (de34 U hU d1 d2 d3 d4 d5 d6 d7 d8 d9 d10 h1 h2 h3 h4 h5 h6 h7 h8 h9 h10 sc).1
+  · exact (de38 U hU d1 d2 d3 d4 d5 d6 d7 d8 d9 d10 h1 h2 h3 h4 h5 h6 h7 h8 h9 h10 sc).1
+  · exact (de60 U hU d1 d2 d3 d4 d5 d6 d7 d8 d9 d10 h1 h2 h3 h4 h5 h6 h7 h8 h9 h10 sc).1
+  · exact (de61 U hU d1 d2 d3 d4 d5 d6 d7 d8 d9 d10 h1 h2 h3 h4 h5 h6 h7 h8 h9 h10 sc).1
+  · exact (de63 U hU d1 d2 d3 d4 d5 d6 d7 d8 d9 d10 h1 h2 h3 h4 h5 h6 h7 h8 h9 h10 sc).1
+  · exact (de68 U hU d1 d2 d3 d4 d5 d6 d7 d8 d9 d10 h1 h2 h3 h4 h5 h6 h7 h8 h9 h10 sc).1
+  · exact (de76 U hU d1 d2 d3 d4 d5 d6 d7 d8 d9 d10 h1 h2 h3 h4 h5 h6 h7 h8 h9 h10 sc).1
+  · exact (de88 U hU d1 d2 d3 d4 d5 d6 d7 d8 d9 d10 h1 h2 h3 h4 h5 h6 h7 h8 h9 h10 sc).1
+  · rw [de91 U hU d1 d2 d3 d4 d5 d6 d7 d8 d9 d10 h1 h2 h3 h4 h5 h6 h7 h8 h9 h10 sc]; rfl
+  · exact (de99 U hU d1 d2 d3 d4 d5 d6 d7 d8 d9 d10 h1 h2 h3 h4 h5 h6 h7 h8 h9 h10 sc).1
 
 /-- "The verdict depends on nothing but the method and the account number": in particular not on
     the scratch state left behind by earlier computations (instance for method 25, the method
